@@ -398,6 +398,8 @@ class SparseArray:
 
         if not isinstance(axis, tuple):
             axis = (axis,)
+        if len(set(axis)) != len(axis):
+            raise ValueError("duplicate value in 'axis'")
         out = self._reduce_calc(method, axis, keepdims, **kwargs)
         if len(out) == 1:
             return out[0]
